@@ -5,6 +5,7 @@ Variants: 'asan' (-O1 -g, ASan+UBSan, NDEBUG), 'fast' (-O2, NDEBUG, no sanitizer
 'debug' (-O1, asserts on, no sanitizer; shows the assertion a debug build hits)."""
 import glob
 import os
+import shutil
 
 from vlib import repo
 from vlib.common import REPO, SCRATCH, VERIF, run, sha
@@ -44,3 +45,18 @@ def build(variant, timeout=900):
         return False, None, "harness c19.cc (%s) does not compile against the current tree:\n%s" % (variant, (o + e)[-5000:])
     os.replace(tmp, exe)
     return True, exe, "built"
+
+
+def private_copy(exe):
+    """Other builders' checks prune tree-keyed build directories (vlib.repo._prune) while a long run is in
+    progress; run from a private copy."""
+    d = os.path.join(SCRATCH, "c19-run-%d" % os.getpid())
+    os.makedirs(d, exist_ok=True)
+    dst = os.path.join(d, os.path.basename(exe))
+    if not os.path.exists(dst):
+        shutil.copy2(exe, dst)
+    return dst
+
+
+def cleanup():
+    shutil.rmtree(os.path.join(SCRATCH, "c19-run-%d" % os.getpid()), ignore_errors=True)
